@@ -165,6 +165,17 @@ func c09Stop(c *core.Ctx) {
 			nContinuing++
 		}
 		seen := map[condEdge]bool{}
+		// the variable whose value true the edge witnesses (nil when two different flags share the edge)
+		flagOf := map[condEdge]*types.Var{}
+		for _, u := range uses {
+			for _, e := range u.edges {
+				if w, has := flagOf[e]; has && w != u.v {
+					flagOf[e] = nil
+				} else {
+					flagOf[e] = u.v
+				}
+			}
+		}
 		for _, u := range uses {
 			for _, e := range u.edges {
 				if seen[e] {
@@ -173,10 +184,7 @@ func c09Stop(c *core.Ctx) {
 				seen[e] = true
 				nTests++
 				start := blockEntry(e.B.Succs[e.Succ])
-				_, found := core.PathQuery{F: f, From: start, Target: core.PointSet(more...)}.Find()
-				if core.PointSet(more...)(start) {
-					found = true
-				}
+				found := c09reachesWhileTrue(f, start, flagOf[e], more)
 				c.Check(!found, name+"|nothing of the old epoch after sealing", "T4 GuardedBy", posOf(core.Point{B: e.B, I: len(e.B.Nodes) - 1}), "from the sealed edge no further ProcessRoot / onFrameDecided / processKnownRoots is reachable in this call", "after the epoch was sealed the old epoch's election continues (a further block of the old epoch can be emitted)")
 			}
 		}
@@ -243,6 +251,51 @@ func c09Stop(c *core.Ctx) {
 			c.Check(okProp, name+"|reports sealing of "+short(u.cs.Name)+" to its caller", "T8", u.cs.Pos(), "the sealed edge returns (true, ·) and no successful return ignores the flag", "a seal during re-processing is not reported to the caller, which goes on with the old epoch's election; path "+f.DescribePath(wit))
 		}
 	}
-	c.ExpectAtLeast("functions that continue the election after a seal-reporting call", nContinuing, 2)
-	c.ExpectAtLeast("tests of a sealed flag", nTests, 2)
+	c.ExpectAtLeast("functions that continue the election after a seal-reporting call", nContinuing, 1)
+	c.ExpectAtLeast("tests of a sealed flag", nTests, 1)
+}
+
+// c09reachesWhileTrue: can one of the target points be reached from `start`, given that the boolean
+// variable v is true at `start`? As long as v has not been assigned again, an edge on which v is false
+// cannot be taken (`if !sealed {…}; if sealed {return}` never falls through the second test when it
+// skipped the first block); after an assignment to v anything goes. With v == nil, or when a nested
+// literal writes v, the search is unrestricted.
+func c09reachesWhileTrue(f *core.FuncInfo, start core.Point, v *types.Var, targets []core.Point) bool {
+	isT := core.PointSet(targets...)
+	if isT(start) {
+		return true
+	}
+	free := v == nil
+	if !free {
+		for _, l := range allLits(f) {
+			for _, a := range assignments(l) {
+				if varOfRaw(l, a.LHS) == v {
+					free = true
+				}
+			}
+		}
+	}
+	if free {
+		_, found := core.PathQuery{F: f, From: start, Target: isT}.Find()
+		return found
+	}
+	falseEdges := f.GuardEdges(c09lift(f, c33boolFact(f, v, false)))
+	var again []core.Point
+	for _, a := range assignsToVar(f, v) {
+		if !isT(a.Pt) {
+			again = append(again, a.Pt)
+		}
+	}
+	if _, found := (core.PathQuery{F: f, From: start, Target: isT, Avoid: core.PointSet(again...), AvoidEdge: falseEdges}).Find(); found {
+		return true
+	}
+	for _, a := range again {
+		if _, r := (core.PathQuery{F: f, From: start, Target: core.PointSet(a), AvoidEdge: falseEdges}).Find(); !r {
+			continue
+		}
+		if _, found := (core.PathQuery{F: f, From: a, FromAfter: true, Target: isT}).Find(); found {
+			return true
+		}
+	}
+	return false
 }
